@@ -96,6 +96,8 @@ func TestVerifC11Server(t *testing.T) {
 					sig += ":counter"
 				case strings.Contains(why, "unknown stack"):
 					sig += ":stack"
+				case why == "?" && len(st.Body) > zzvLimit && status == 400:
+					sig += ":larger-than-the-request-limit"
 				}
 				res.Violate(sig, fmt.Sprintf("the server answers %d (%s) to a report the uploader produced under the same configuration [%s]", status, why, st.Case), map[string]any{"case": st.Case, "body": string(st.Body)})
 			}
